@@ -1346,6 +1346,7 @@ struct ssl
     psBool_t tls13ServerEarlyDataEnabled;
     psSize_t tls13SessionMaxEarlyData;
     psSize_t tls13ReceivedEarlyDataLen;
+    psBool_t tls13OwnSid; /* ssl->sid was allocated by NewSessionTicket parsing */
     uint32_t tls13EarlyDataStatus;
     psSizeL_t tls13PadLen;
     psSizeL_t tls13BlockSize;
